@@ -202,6 +202,30 @@ def check_structure(ctx, text, kw, fail, root_pos=None):
     return doc, idx, trace, entered
 
 
+def snapshot_lists(root):
+    """every list object held by an attribute of a node of the tree, with the identities of its members"""
+    out = []
+    stack = [root]
+    while stack:
+        n = stack.pop()
+        for a in attrs_of(n):
+            v = getattr(n, a, None)
+            if isinstance(v, list):
+                out.append((kind(n), a, v, tuple(id(m) for m in v)))
+        for _, _, c in children(n):
+            stack.append(c)
+    return out
+
+
+def mutated_list(snaps):
+    """the first list OBJECT whose members changed (lists are rebuilt and re-assigned, never edited in place: a
+    shallow copy taken before the visit keeps seeing the old members)"""
+    for k, a, lst, ids in snaps:
+        if tuple(id(m) for m in lst) != ids:
+            return "%s.%s" % (k, a)
+    return None
+
+
 def _same_keys(t1, t2):
     return [key(e) for e in t1] == [key(e) for e in t2]
 
@@ -239,12 +263,21 @@ def check_edits(ctx, text, kw, fail, positions=None, budget=None):
                 if par is None or par[2] is None:
                     continue   # the statement speaks of list members
                 trace = []
+                members = list(getattr(par[0], par[1]))
+                shallow = par[0].copy()
+                snaps = snapshot_lists(doc)
                 res = make_recorder(_v.ASTVisitor, 0, trace, {id(x): ("delete", None)}).visit(doc)
                 exp_keys = base_keys[:i + 1] + base_keys[j:]
                 lst = getattr(par[0], par[1])
                 exp = copy.deepcopy(before)
                 _dict_at(exp, idx.path(par[0]))[par[1]].pop(par[2])
-                ok = res is doc and all(m is not x for m in lst) and doc.to_dict() == exp and [key(e) for e in trace] == exp_keys
+                # by IDENTITY: exactly the visited occurrence is gone (structurally equal siblings stay where they are)
+                ident = [id(m) for m in lst] == [id(m) for q, m in enumerate(members) if q != par[2]]
+                ml = mutated_list(snaps)
+                if ml or [id(m) for m in getattr(shallow, par[1])] != [id(m) for m in members]:
+                    fail("list-mutated-in-place:%s" % (ml or "%s.%s" % (kind(par[0]), par[1])),
+                         "a deletion edits the child list object in place: a shallow copy taken before the visit changes too", {"edit": "delete", "pos": pos})
+                ok = res is doc and ident and doc.to_dict() == exp and [key(e) for e in trace] == exp_keys
                 if not ok:
                     fail("delete-not-local:%s.%s" % (kind(par[0]), par[1]),
                          "returning None for a member of %s.%s does not remove exactly that member" % (kind(par[0]), par[1]),
@@ -277,15 +310,24 @@ def check_edits(ctx, text, kw, fail, positions=None, budget=None):
                 rd = r.to_dict()
                 yi, yj = segment(tr0, y)
                 trace = []
+                members = list(getattr(par[0], par[1])) if (par is not None and par[2] is not None) else None
+                snaps = snapshot_lists(doc)
                 res = make_recorder(_v.ASTVisitor, 0, trace, {id(x): ("replace", r)}).visit(doc)
                 exp_keys = base_keys[:i + 1] + base_keys[yi + 1:yj] + base_keys[j:]
+                ml = mutated_list(snaps)
+                if ml and y is x:
+                    fail("list-mutated-in-place:%s" % ml, "a replacement edits the child list object in place: a shallow copy taken before the visit changes too",
+                         {"edit": act, "pos": pos})
                 if par is None:
                     placed = res is r
                     exp = rd
                     got = res.to_dict() if res is not None else None
                 else:
                     holder = getattr(par[0], par[1])
-                    placed = (holder[par[2]] is r) if par[2] is not None else (holder is r)
+                    if par[2] is not None:   # by IDENTITY: only the visited occurrence changed
+                        placed = [id(m) for m in holder] == [id(r) if q == par[2] else id(m) for q, m in enumerate(members)]
+                    else:
+                        placed = holder is r
                     exp = copy.deepcopy(before)
                     d = _dict_at(exp, idx.path(par[0]))
                     if par[2] is None:
@@ -298,7 +340,10 @@ def check_edits(ctx, text, kw, fail, positions=None, budget=None):
                 leave_ok = any(e[-2] == "leave" and e[-1] is r for e in trace)
                 if not (placed and got == exp and traced_ok and leave_ok):
                     where = "root" if par is None else "%s.%s" % (kind(par[0]), par[1])
-                    sig = "replace-discarded:%s" % where if ([key(e) for e in trace] == exp_keys and not placed) else "replace-not-local:%s" % where
+                    wrong = (par is not None and par[2] is not None and not placed
+                             and any(m is r for q, m in enumerate(getattr(par[0], par[1])) if q != par[2]))
+                    sig = ("replace-wrong-occurrence:%s" % where if wrong else
+                           "replace-discarded:%s" % where if ([key(e) for e in trace] == exp_keys and not placed) else "replace-not-local:%s" % where)
                     fail(sig, "returning a replacement for the node at %s does not substitute exactly that node" % where,
                          {"edit": act, "pos": pos})
 
@@ -658,6 +703,81 @@ def check_chain_skips(ctx, text, kw, fail, k, positions):
             fail("chain:skip-not-local:%s" % cause,
                  "SkipNode raised by member %d of a chain of %d: the calls made to the members differ from the specified ones (%s)" % (j, k, cause),
                  {"chain": k, "member": j, "pos": pos, "skips": True})
+
+
+def check_chain_nested(ctx, text, kw, fail, position, variant, pos):
+    """An outer chain [r0, N, r3] (N at index `position`) where N is a nested chain of two recorders: a plain
+    ChainedVisitor, or a SUBCLASS with its own enter/leave (recording / raising SkipNode at a node). A nested chain
+    counts as ONE member: members enter in order and leave in reverse, N's own enter/leave bracket its members,
+    and a SkipNode raised by N suppresses the later members, the children and every leave of that node."""
+    _v = V()
+    doc1 = parse_doc(text, kw)
+    single = []
+    make_recorder(_v.ASTVisitor, 0, single).visit(doc1)
+    idx1 = Index(doc1)
+    order1 = {id(n): q for q, n in enumerate(idx1.nodes)}
+    ent1 = [e[-1] for e in single if e[-2] == "enter"]
+    pos = min(pos, len(ent1) - 1)
+    i0, j0 = segment(single, ent1[pos])
+    doc = parse_doc(text, kw)
+    idx = Index(doc)
+    x = idx.nodes[order1[id(ent1[pos])]]
+    before = doc.to_dict()
+    trace = []
+
+    class Tracing(_v.ChainedVisitor):
+        def enter(self, node):
+            trace.append(("N", "enter", node))
+            return super().enter(node)
+
+        def leave(self, node):
+            super().leave(node)
+            trace.append(("N", "leave", node))
+
+    class Skipping(Tracing):
+        def enter(self, node):
+            trace.append(("N", "enter", node))
+            if node is x:
+                raise _v.SkipNode()
+            return _v.ChainedVisitor.enter(self, node)
+
+    cls = {"plain": _v.ChainedVisitor, "tracing": Tracing, "skipping": Skipping}[variant]
+    inner = cls(make_recorder(_v.ASTVisitor, "i1", trace), make_recorder(_v.DispatchingVisitor, "i2", trace))
+    outer_members = [make_recorder(_v.ASTVisitor, "o%d" % t, trace) for t in range(2)]
+    outer_members.insert(position, inner)
+    try:
+        res = _v.ChainedVisitor(*outer_members).visit(doc)
+    except Exception as e:  # noqa
+        fail("chain:nested:raises", "a chain containing a nested chain raises %s" % type(e).__name__,
+             {"nested": variant, "position": position, "pos": pos})
+        return
+    ctx.count()
+    outer_tags = ["o0", "o1"]
+    outer_tags.insert(position, "N")
+    n_enter = (["N"] if variant != "plain" else []) + ["i1", "i2"]
+    n_leave = ["i2", "i1"] + (["N"] if variant != "plain" else [])
+    exp = []
+    for q, e in enumerate(single):
+        if variant == "skipping" and i0 < q < j0:
+            continue
+        if variant == "skipping" and q == i0:
+            exp += [(t,) + key(e) for t in outer_tags[:position]] + [("N",) + key(e)]
+            continue
+        tags = []
+        for t in (outer_tags if e[-2] == "enter" else outer_tags[::-1]):
+            tags += (n_enter if e[-2] == "enter" else n_leave) if t == "N" else [t]
+        exp += [(t,) + key(e) for t in tags]
+    got = [(e[0],) + key(e) for e in trace]
+    if got != exp or res is not doc or doc.to_dict() != before:
+        if variant != "plain" and not any(g[0] == "N" for g in got):
+            cause = "member-not-called"
+        elif variant == "skipping" and len(got) > len(exp):
+            cause = "skip-ignored"
+        else:
+            cause = "order"
+        fail("chain:nested:%s" % cause,
+             "a nested %s chain at position %d of a chain is not treated as one member (%s)" % (variant, position, cause),
+             {"nested": variant, "position": position, "pos": pos})
 
 
 def check_transforms(ctx, text, kw, fail):
